@@ -512,6 +512,14 @@ class Ctx:
         return [o[0] for o in out]
 
 
+def claimed_properties():
+    try:
+        m = json.load(open(os.path.join(ROOT, "MANIFEST.json")))
+        return [c["property_id"] for c in m["checks"]]
+    except Exception:
+        return []
+
+
 def setup():
     os.makedirs(BIN, exist_ok=True)
     os.makedirs(WORK, exist_ok=True)
@@ -520,11 +528,16 @@ def setup():
     if not ok:
         print("gofacts failed:", msg)
         return 1
-    ok, out = lake_build([])
-    if not ok:
-        print(out[-3000:])
-        return 1
-    ok, out = lake_build(["driver"])
+    # property modules may regenerate further facts at import time (tlsfacts, protofacts)
+    mods = {}
+    for prop in claimed_properties():
+        try:
+            mods[prop] = importlib.import_module("gen." + prop.lower())
+        except Exception as e:
+            print("cannot import gen.%s: %s" % (prop.lower(), e))
+            return 1
+    targets = sorted({"IpfixModel.Props." + p for p in mods} | {getattr(m.SPEC, "driver_target", "driver") for m in mods.values()} | {"driver"})
+    ok, out = lake_build(targets)
     if not ok:
         print(out[-3000:])
         return 1
@@ -532,6 +545,17 @@ def setup():
     if not ok:
         print(err[-3000:])
         return 1
+    for prop, m in mods.items():
+        if hasattr(m, "build_harness"):
+            ok, err, _ = m.build_harness()
+            if not ok:
+                print("harness for %s does not build: %s" % (prop, err[-2000:]))
+                return 1
+        if getattr(m.SPEC, "race", False):
+            ok, err, _ = build_harness(race=True)
+            if not ok:
+                print(err[-3000:])
+                return 1
     print("setup ok")
     return 0
 
@@ -554,13 +578,18 @@ def replay(path):
         ops = [ops]
     impl, _ = run_ops(hbin, ops)
     model, _ = run_ops(driver_path(dtarget), ops)
-    for o, i, m in zip(ops, impl, model):
+    chk, _ = run_ops(driver_path(dtarget), ["chk %s | %s" % (o, i) for o, i in zip(ops, impl)])
+    for k, (o, i, m) in enumerate(zip(ops, impl, model)):
         print("op   ", o[:300])
         print("impl ", i[:300])
         print("model", m[:300])
-    bad = impl != model
-    print("REPLAY: %s" % ("implementation and model still disagree" if bad else "implementation and model agree on this input now"))
-    return 1 if bad else 0
+        if k < len(chk):
+            print("spec ", chk[k][:300])
+    differ = impl != model
+    fails = any(c.startswith("fails") for c in chk)
+    print("REPLAY: implementation and model %s; the property predicate %s on the implementation's observations" % (
+        "still disagree" if differ else "agree on this input now", "FAILS" if fails else "holds (or is not defined for these ops)"))
+    return 1 if (differ or fails) else 0
 
 
 def main():
